@@ -7,9 +7,14 @@ From Coq Require Import List ZArith Bool.
 Import ListNotations.
 Open Scope Z_scope.
 
-(* Err: the plan returns an error; Panic: the plan panics; PanicNext: the plan runs, NextStages() panics *)
-Inductive outcome := Ok | Err | Panic | PanicNext.
-Definition is_ok (o : outcome) : bool := match o with Ok => true | _ => false end.
+(* Err: the plan returns an error; Panic: the plan panics; PanicNext: the plan runs, NextStages() panics;
+   NotFoundIgnored: a plan node that ignores not-found returns a not-found error (tolerated: its children are skipped,
+   the stage goes on); NotFoundPlain: a not-found error of a node that does not ignore it; ErrIgnoring: another error of
+   a node that ignores not-found - both fail the stage (query/stage/base_stage.go execute) *)
+Inductive outcome := Ok | Err | Panic | PanicNext | NotFoundIgnored | NotFoundPlain | ErrIgnoring.
+Definition is_ok (o : outcome) : bool := match o with Ok | NotFoundIgnored => true | _ => false end.
+(* the stage's plan ran through: the plan nodes after the failing one are executed iff this holds *)
+Definition plan_ok (o : outcome) : bool := match o with Ok | NotFoundIgnored | PanicNext => true | _ => false end.
 
 (* stage tree: outcome of the stage's own plan, async flag, next stages *)
 Inductive stage := Stage (o : outcome) (async : bool) (next : list stage).
@@ -107,3 +112,11 @@ Fixpoint size_act (a : act) : nat :=
   | _ => 1
   end%nat.
 Definition size_acts := fix sz (l : list act) : nat := match l with [] => 0 | x :: l' => size_act x + sz l' end%nat.
+
+(* plan nodes that follow a stage's main node and must run: one per started stage whose plan ran through *)
+Fixpoint tails_of (s : stage) : nat :=
+  match s with
+  | Stage o _ next =>
+    (if plan_ok o then 1 else 0) +
+    (if is_ok o then (fix sum (l : list stage) : nat := match l with [] => 0 | c :: l' => tails_of c + sum l' end) next else 0)
+  end%nat.
